@@ -23,7 +23,7 @@ const ENUM_SIZES: u64 = 24;
 
 fn streams(t: Tier) -> Vec<StreamDef> {
     // enumerated: shape (16) x size (1..24) x offset index (0..size-1, only when O) -> bounded by 16*24*24
-    vec![st("enumerated", t.n(16 * ENUM_SIZES * ENUM_SIZES, 16 * ENUM_SIZES * ENUM_SIZES, 100, 16 * ENUM_SIZES * ENUM_SIZES), true), st("random", t.n(60_000, 3_000_000, 60, 10_000), false)]
+    vec![st("enumerated", t.n(16 * ENUM_SIZES * ENUM_SIZES, 16 * ENUM_SIZES * ENUM_SIZES, 100, 16 * ENUM_SIZES * ENUM_SIZES), true), st("random", t.n(60_000, 3_000_000, 60, 10_000), false), st("large_nolength", t.n(8 * LARGE.len() as u64, 8 * LARGE.len() as u64, 0, 8 * LARGE.len() as u64), true)]
 }
 
 fn floors(t: Tier) -> Vec<(String, u64)> {
@@ -101,8 +101,73 @@ pub fn judge(ctx: &mut Ctx, d: &SData) {
     ctx.rep.sample(|| J::obj(vec![("message", J::s(key.clone())), ("encoded_hex", J::hex(&enc[..enc.len().min(64)]))]));
 }
 
+/// Payload sizes for data messages without a Length field (nothing in the format bounds them):
+/// around the 16-bit limit a datagram would impose, and well beyond it.
+const LARGE: [usize; 34] = [
+    65_519, 65_520, 65_521, 65_522, 65_523, 65_524, 65_525, 65_526, 65_527, 65_528, 65_529, 65_530, 65_531, 65_532, 65_533, 65_534, 65_535, 65_536, 65_537, 65_538,
+    65_539, 65_540, 65_541, 65_542, 65_543, 65_544, 65_545, 70_000, 131_071, 131_072, 131_073, 1 << 20, (1 << 24) + 1, 20_000_000,
+];
+
+/// Round trip of a data message too large to print: compared by size and content, reported by size.
+fn judge_large(ctx: &mut Ctx, d: &SData) {
+    let m = SMsg::Data(d.clone());
+    let cm = glue::msg_to_crate(&m).unwrap();
+    let shape = ((d.nsnr.is_some() as u8) << 1) | ((d.offset.is_some() as u8) << 2) | ((d.prio as u8) << 3);
+    let key = format!("large:{}:{}:{:?}", shape, d.data.len(), d.offset);
+    ctx.rep.case(key.as_bytes(), true);
+    let enc = match exec::encode_msg(&cm, Wk::Vec) {
+        exec::EncOut::Ok(e) => e.bytes,
+        exec::EncOut::Panic(p) => {
+            ctx.violate(format!("C04:encode-panic:{}", p.class()), format!("encoding a data message without Length and with {} payload octets panicked: {}", d.data.len(), p.message), J::obj(vec![("case", J::s(key.clone()))]));
+            return;
+        }
+    };
+    let n = d.offset.unwrap_or(0) as usize;
+    for (o, rk) in [(None, Rk::Slice), (Some(SOpts::STRICT), Rk::ContractSlice)] {
+        let run = exec::decode_msg(&enc, o, rk);
+        let class = match &run.out {
+            Out::Ok(SMsg::Data(g)) if g.data == d.data[n..] && g.tunnel == d.tunnel && g.session == d.session && g.nsnr == d.nsnr && g.prio == d.prio && g.length.is_none() => {
+                ctx.rep.bucket("large.roundtrip.ok");
+                if run.remaining != 0 {
+                    ctx.violate("C04:leftover", format!("{} octets left in the reader after decoding an exact data message of {} payload octets", run.remaining, d.data.len()), J::obj(vec![("case", J::s(key.clone()))]));
+                }
+                continue;
+            }
+            Out::Ok(SMsg::Data(g)) if g.data.len() != d.data.len() - n => format!("value:payload-size:{}", if g.data.len() < d.data.len() - n { "shorter" } else { "longer" }),
+            Out::Ok(_) => "value:other".to_string(),
+            Out::Err(e) => format!("err:{}", super::c05::first_err_name(e)),
+            Out::Panic(p) => format!("panic:{}", p.class()),
+            Out::Budget => "budget".to_string(),
+        };
+        let got_len = match &run.out {
+            Out::Ok(SMsg::Data(g)) => g.data.len() as i64,
+            _ => -1,
+        };
+        ctx.violate(
+            format!("C04:roundtrip:large:{}", class),
+            format!("a data message without Length field, {} payload octets (offset size {:?}): decode(encode(d)) returns {} payload octets (-1: no data message), expected {}", d.data.len(), d.offset, got_len, d.data.len() - n),
+            J::obj(vec![("case", J::s(key.clone())), ("encoded_head_hex", J::hex(&enc[..enc.len().min(32)])), ("options", J::s(opts_str(o))), ("reader", J::s(format!("{:?}", rk)))]),
+        );
+    }
+}
+
 fn run(ctx: &mut Ctx) {
     match ctx.stream {
+        "large_nolength" => {
+            let size = LARGE[(ctx.idx / 8) as usize % LARGE.len()];
+            if size > (1 << 20) && ctx.build != "rel" {
+                return;
+            }
+            // the 8 shapes without L
+            let shape = ((ctx.idx % 8) as u8) << 1;
+            let mut d = val::data(&mut ctx.rng, Some(shape), 4);
+            d.data = ctx.rng.bytes(size);
+            if shape & 4 != 0 {
+                d.offset = Some(*ctx.rng.pick(&[0u16, 1, 7, 65_535, 65_529]).min(&((size - 1).min(65_535) as u16)));
+            }
+            d.length = None;
+            judge_large(ctx, &d);
+        }
         "enumerated" => {
             let shape = (ctx.idx % 16) as u8;
             let size = ((ctx.idx / 16) % ENUM_SIZES) as usize + 1;
